@@ -22,45 +22,34 @@ theorem Same.of_fields {a b : Stream} (hk : b.key = a.key) (hi : b.id = a.id) (h
   ⟨hk, hi, hc, fun q => by cases q <;> simp [Stream.isQueued, *], fun h => by unfold Early at *; rw [← hs]; exact h,
    fun f hf _ => hp ▸ hf⟩
 
-/-- proves `Same x (… x …)` -/
-syntax "same_tac" : tactic
-macro_rules | `(tactic| same_tac) => `(tactic| exact Same.of_fields rfl rfl rfl rfl rfl rfl rfl rfl rfl rfl rfl)
-macro_rules | `(tactic| same_tac) => `(tactic| exact Same.refl _)
+/-- `Same x { x with … }` when only uninteresting fields change -/
+macro "same_fields" : tactic => `(tactic| with_reducible exact Same.of_fields rfl rfl rfl rfl rfl rfl rfl rfl rfl rfl rfl)
 
 theorem notifySend_same (x : Stream) : Same x x.notifySend.1 := by
   unfold Stream.notifySend
-  cases h1 : x.sendTask <;> cases h2 : x.openTask <;> simp only [h1, h2] <;> same_tac
-macro_rules | `(tactic| same_tac) => `(tactic| exact notifySend_same _)
+  cases h1 : x.sendTask <;> cases h2 : x.openTask <;> simp only [h1, h2] <;> same_fields
 
 theorem notifyRecv_same (x : Stream) : Same x x.notifyRecv.1 := by
-  unfold Stream.notifyRecv; split <;> same_tac
-macro_rules | `(tactic| same_tac) => `(tactic| exact notifyRecv_same _)
+  unfold Stream.notifyRecv; split <;> same_fields
 
 theorem notifyPush_same (x : Stream) : Same x x.notifyPush.1 := by
-  unfold Stream.notifyPush; split <;> same_tac
-macro_rules | `(tactic| same_tac) => `(tactic| exact notifyPush_same _)
+  unfold Stream.notifyPush; split <;> same_fields
 
 theorem notifyCapacity_same (x : Stream) : Same x x.notifyCapacity.1 :=
-  Same.trans (b := { x with sendCapacityInc := true }) (by same_tac) (notifySend_same _)
-macro_rules | `(tactic| same_tac) => `(tactic| exact notifyCapacity_same _)
+  Same.trans (b := { x with sendCapacityInc := true }) (by same_fields) (notifySend_same _)
 
 theorem assignCapacity_same (x : Stream) (a b : Nat) : Same x (x.assignCapacity a b).1 := by
   unfold Stream.assignCapacity; simp only []; split
-  · exact Same.trans (b := { x with sendFlow := (x.sendFlow.assignCapacity a).1 }) (by same_tac) (notifyCapacity_same _)
-  · same_tac
-macro_rules | `(tactic| same_tac) => `(tactic| exact assignCapacity_same _ _ _)
+  · exact Same.trans (b := { x with sendFlow := (x.sendFlow.assignCapacity a).1 }) (by same_fields) (notifyCapacity_same _)
+  · same_fields
 
 theorem sendData_same (x : Stream) (a b : Nat) : Same x (x.sendData a b).1 := by
   unfold Stream.sendData; simp only []; split
-  · exact Same.trans (b := { x with sendFlow := (x.sendFlow.sendData a).1, bufferedSendData := wrapSubUsize x.bufferedSendData a,
-        requestedSendCapacity := wrapSubU32 x.requestedSendCapacity a }) (by same_tac) (notifyCapacity_same _)
-  · same_tac
-macro_rules | `(tactic| same_tac) => `(tactic| exact sendData_same _ _ _)
+  · exact Same.trans (b := { x with sendFlow := (x.sendFlow.sendData a).1, bufferedSendData := wrapSubUsize x.bufferedSendData a, requestedSendCapacity := wrapSubU32 x.requestedSendCapacity a }) (by same_fields) (notifyCapacity_same _)
+  · same_fields
 
-theorem waitSend_same (x : Stream) (t : String) : Same x (x.waitSend t) := by unfold Stream.waitSend; same_tac
-macro_rules | `(tactic| same_tac) => `(tactic| exact waitSend_same _ _)
-theorem waitOpen_same (x : Stream) (t : String) : Same x (x.waitOpen t) := by unfold Stream.waitOpen; same_tac
-macro_rules | `(tactic| same_tac) => `(tactic| exact waitOpen_same _ _)
+theorem waitSend_same (x : Stream) (t : String) : Same x (x.waitSend t) := by unfold Stream.waitSend; same_fields
+theorem waitOpen_same (x : Stream) (t : String) : Same x (x.waitOpen t) := by unfold Stream.waitOpen; same_fields
 
 /-- a new `state` that is not an unopened one (or was one already) -/
 theorem setState_same (x : Stream) (st' : State) (h : (st'.inner = .idle ∨ st'.inner = .reservedRemote) → Early x) :
@@ -78,7 +67,13 @@ theorem setReset_same (x : Stream) (r : Reason) (i : Initiator) : Same x (x.setR
   refine Same.trans (b := { x with state := x.state.setReset x.id r i }) (setState_same _ _ ?_) ?_
   · intro h; exact absurd h (notEarly_of_closed rfl)
   · exact (notifySend_same _).trans ((notifyPush_same _).trans (notifyRecv_same _))
-macro_rules | `(tactic| same_tac) => `(tactic| exact setReset_same _ _ _)
+
+/-- proves `Same x (… x …)` -/
+macro "same_tac" : tactic => `(tactic| with_reducible first
+  | exact Same.of_fields rfl rfl rfl rfl rfl rfl rfl rfl rfl rfl rfl
+  | exact notifySend_same _ | exact notifyRecv_same _ | exact notifyPush_same _ | exact notifyCapacity_same _
+  | exact assignCapacity_same _ _ _ | exact sendData_same _ _ _ | exact waitSend_same _ _ | exact waitOpen_same _ _
+  | exact setReset_same _ _ _)
 
 /-- a new `pending_send` whose PUSH_PROMISE frames were there before -/
 theorem setPendingSend_same (x : Stream) (l : List SFrame) (b r : Nat)
